@@ -21,11 +21,20 @@ Class(c, d, e, shape, plain) ==
     \o (IF plain THEN << <<"mixin", "plain">> >> ELSE <<>>) >>
 \* a named tuple with a date element (the engine option must concern the named tuple, not its elements)
 NTd == <<"ntuple", "Pd", << <<"x", <<"int">>, <<"req">> >>, <<"d", <<"date">>, <<"req">> >> >> >>
-Shapes == { NTt, <<"opt", NTt>>, NTd }
+\* every element defaulted: in the list representation trailing items may be left out, in the dict representation every key is needed
+NT3 == <<"ntuple", "P3", << <<"x", <<"int">>, <<"val", I(0)>> >>, <<"y", <<"int">>, <<"val", I(0)>> >>, <<"z", <<"int">>, <<"val", I(0)>> >> >> >>
+Shapes == { NTt, <<"opt", NTt>>, NTd, NT3 }
+\* foreign inputs for the field p (both representations meet both kinds of input): absent / surplus / invalid items in every position
+PInputs == { Dct(<< <<S("y"), S("garbage")>>, <<S("z"), I(3)>> >>), Dct(<< <<S("x"), I(1)>>, <<S("y"), I(2)>>, <<S("z"), I(3)>> >>),
+             Dct(<< <<S("x"), I(1)>> >>), Dct(<<>>), Dct(<< <<S("x"), I(1)>>, <<S("y"), S("garbage")>>, <<S("z"), I(3)>> >>),
+             Dct(<< <<S("x"), S("garbage")>>, <<S("y"), S("s")>> >>), Dct(<< <<S("x"), I(1)>>, <<S("y"), S("s")>> >>), Dct(<< <<S("y"), S("s")>> >>),
+             L(<<>>), L(<<I(1)>>), L(<<I(1), S("garbage")>>), L(<<I(1), I(2), I(3)>>), L(<<I(1), I(2), I(3), I(4)>>), L(<<S("garbage"), I(2)>>),
+             None, S("ab") }
 Classes == { Class(c, d, e, s, p) : c \in Tri, d \in Tri, e \in Eng, s \in Shapes, p \in BOOLEAN }
 Init == T = <<"start">> /\ v = <<"nov">> /\ kind = "start"
 Next == \/ kind = "start" /\ T' \in Classes /\ v' = v /\ kind' = "type"
         \/ kind = "type" /\ T' = T /\ v' \in Range(Smp(T)) /\ kind' = "value"
+        \/ kind = "type" /\ T' = T /\ v' \in { Dct(<< <<S("p"), j>> >>) : j \in PInputs } /\ kind' = "input"
 RECURSIVE Listify(_)
 Listify(w) ==
   CASE w[1] = "bag"  -> L(LET s == SetToSeq(w[2]) IN [i \in DOMAIN s |-> Listify(s[i])])
@@ -35,5 +44,7 @@ Listify(w) ==
 Wire == Pack(T, DefaultCx, v)
 Back == Unpack(T, DefaultCx, Listify(Wire))
 RoundTrip == kind = "value" => (IsUnknown(Back) \/ Back = Ok(v))
-EmitInv == kind = "value" => PrintT(ToJson(<<"vec", T, v, Wire, Back>>))
+Dec == Unpack(T, DefaultCx, v)
+EmitInv == /\ kind = "value" => PrintT(ToJson(<<"vec", T, v, Wire, Back>>))
+           /\ kind = "input" => PrintT(ToJson(<<"inp", T, v, Dec>>))
 =============================================================================
